@@ -13,7 +13,7 @@ import random
 
 # argument kinds: type, list of (pattern text, class) where class in {lit, str, slice, wild, bind, refutable...}
 ARGS = {
-    'i32': ('i32', ['1', '1 | 2', '3..=5', '_', 'x', 'x @ 1..=9', '-1']),
+    'i32': ('i32', ['1', '1 | 2', '3..=5', '_', 'x', 'x @ 1..=9', '-1', '5..', '..=4', '2..7', 'y @ 3..']),
     'bool': ('bool', ['true', 'false', '_']),
     'char': ('char', ["'a'", "'a'..='z'", '_']),
     'str': ('&str', ['"x"', '"x" | "y"', '_', 's', '""']),
